@@ -224,3 +224,125 @@ Definition session_post (cfg : config) (cmax : version) (k1 k2 : nat) (r1 r2 : r
       | Proceeds => post_run cfg (n_version r) evs
       | Fails => mkPost (n_version r) []
       end).
+
+(* ---- acknowledgements held back by a reader that stops reading ---------------------------- *)
+(* The version a frame carries is decided when the write loop WRITES it — for acknowledgements
+   too: the ackHandler (read side) queues only the ID of the KEEPALIVE; the write loop takes one ID
+   at a time, builds the acknowledgement, stamps it with the version in use at that moment and
+   writes it, blocking until the reader has read it.
+
+   The write loop, one frame at a time.  w_busy = the frame whose write is under way (header already
+   stamped, not yet read by the reader); w_ackq = number of IDs in ackQueue; w_sendq = (type,
+   payload) of the messages offered on sendQueue (all built through newMessage), oldest first;
+   w_wire = the frames the reader has read. *)
+Record wr := mkWr { w_ver : version; w_busy : option frame; w_ackq : nat;
+                    w_sendq : list (N * list N); w_wire : list frame }.
+
+Inductive wr_event :=
+| WKeepAlive            (* the read loop runs the ackHandler: one more ID in ackQueue *)
+| WSubmit (typ : N) (payload : list N)  (* negotiate, or a caller, offers a message on sendQueue *)
+| WAssign (v : version) (* negotiate stores the version it has settled on *)
+| WPeerReads.           (* the reader reads one frame: the write under way completes *)
+
+(* the loop's select when it is free: acknowledgements first, then the send queue; the header gets
+   the version of THIS moment *)
+Definition send_frame (cfg : config) (v : version) (tp : N * list N) : frame :=
+  stamp cfg v (new_message cfg (fst tp) (snd tp)).
+
+Definition wr_take (cfg : config) (s : wr) : wr :=
+  match w_busy s with
+  | Some _ => s
+  | None =>
+      match w_ackq s with
+      | S n => mkWr (w_ver s) (Some (stamp cfg (w_ver s) ack_message)) n (w_sendq s) (w_wire s)
+      | O => match w_sendq s with
+             | tp :: q => mkWr (w_ver s) (Some (send_frame cfg (w_ver s) tp)) O q (w_wire s)
+             | [] => s
+             end
+      end
+  end.
+
+Definition wr_step (cfg : config) (s : wr) (e : wr_event) : wr :=
+  wr_take cfg
+    match e with
+    | WKeepAlive => mkWr (w_ver s) (w_busy s) (S (w_ackq s)) (w_sendq s) (w_wire s)
+    | WSubmit t p => mkWr (w_ver s) (w_busy s) (w_ackq s) (w_sendq s ++ [(t, p)]) (w_wire s)
+    | WAssign v => mkWr v (w_busy s) (w_ackq s) (w_sendq s) (w_wire s)
+    | WPeerReads => match w_busy s with
+                    | Some f => mkWr (w_ver s) None (w_ackq s) (w_sendq s) (w_wire s ++ [f])
+                    | None => s
+                    end
+    end.
+
+Definition wr_run (cfg : config) (evs : list wr_event) (s : wr) : wr := fold_left (wr_step cfg) evs s.
+
+Definition wr_idle (v : version) (wire : list frame) : wr := mkWr v None O [] wire.
+
+(* A reader that sends d KEEPALIVEs and then stops reading leaves the write loop blocked in the
+   first acknowledgement, stamped with the version of that moment (v_then), and d-1 IDs in the
+   queue; when it reads again — the client's version being v_now by then — it reads that frame and
+   then d-1 acknowledgements stamped v_now.  (NegotiateProofs.held_is_writer_run: this is what the
+   write loop above does on the schedule  d x WKeepAlive, WAssign v_now, d x WPeerReads.) *)
+Definition held (cfg : config) (v_then v_now : version) (d : nat) : list frame :=
+  match d with
+  | O => []
+  | S d' => stamp cfg v_then ack_message :: acks cfg v_now d'
+  end.
+
+(* negotiation with keep-alives acknowledged at once (k1, k2, as in negotiate_ka) and with d1 / d2
+   keep-alives sent by a reader that does not read from the moment it sends them until the client
+   has acted on the answer that follows them (to the query / to the switch).
+   Result: the negotiation proper, and the frames left over from it that the reader reads after
+   negotiation has ended (they come before any later traffic: the write loop prefers ackQueue).
+   If the answer makes Connect fail the reader never reads again: nothing more is on the wire. *)
+Definition negotiate_kd (cfg : config) (cmax : version) (k1 d1 k2 d2 : nat) (r1 r2 : reaction)
+  : neg_result * list frame :=
+  if cmax <=? V1_0_1 then (mkRes [] Proceeds cmax, [])
+  else
+    let f1 := stamp cfg cmax (new_message cfg MsgGetSupportedVersion []) in
+    match get_supported r1 with
+    | None => (mkRes (f1 :: acks cfg cmax k1) Fails cmax, [])
+    | Some (cur, mx) =>
+        let v := if mx <? cmax then mx else cmax in
+        if cur =? v then (mkRes (f1 :: acks cfg cmax k1) Proceeds v, held cfg cmax v d1)
+        else
+          let f2 := stamp cfg v (new_message cfg MsgSetProtocolVersion [v]) in
+          let fr := f1 :: acks cfg cmax k1 ++ held cfg cmax v d1 ++ f2 :: acks cfg v k2 in
+          if set_accepted r2 then (mkRes fr Proceeds v, held cfg v v d2)
+          else (mkRes fr Fails v, [])
+    end.
+
+(* a whole session: what is left over from negotiation is read first, then the traffic *)
+Definition session_kd (cfg : config) (cmax : version) (k1 d1 k2 d2 : nat) (r1 r2 : reaction)
+  (evs : list post_event) : neg_result * post_state :=
+  let r := fst (negotiate_kd cfg cmax k1 d1 k2 d2 r1 r2) in
+  let left_over := snd (negotiate_kd cfg cmax k1 d1 k2 d2 r1 r2) in
+  (r, match n_outcome r with
+      | Proceeds => fold_left (post_step cfg) evs (mkPost (n_version r) left_over)
+      | Fails => mkPost (n_version r) []
+      end).
+
+(* a frame carries version v, or is one of the two negotiation messages *)
+Definition carries (v : version) (f : frame) : Prop := m_ver f = v \/ is_neg_type (m_typ f) = true.
+
+(* the events of such a negotiation as the write loop sees them (the decisions — which messages
+   negotiate submits, which version it assigns — are those of negotiate_kd; what the schedule adds
+   is WHEN things happen relative to the reader's reading).  k keep-alives acknowledged at once: *)
+Definition ka_acked (k : nat) : list wr_event := concat (repeat [WKeepAlive; WPeerReads] k).
+
+Definition kd_schedule (cmax : version) (k1 d1 k2 d2 : nat) (r1 r2 : reaction) : list wr_event :=
+  if cmax <=? V1_0_1 then []
+  else
+    [WSubmit MsgGetSupportedVersion []; WPeerReads] ++ ka_acked k1 ++
+    repeat WKeepAlive d1 ++                       (* the reader has stopped reading *)
+    match get_supported r1 with
+    | None => []                                  (* Connect fails; the reader never reads again *)
+    | Some (cur, mx) =>
+        let v := if mx <? cmax then mx else cmax in
+        WAssign v ::
+        if cur =? v then repeat WPeerReads d1     (* Connect goes on; the reader reads again *)
+        else
+          WSubmit MsgSetProtocolVersion [v] :: repeat WPeerReads (S d1) ++ ka_acked k2 ++
+          repeat WKeepAlive d2 ++
+          (if set_accepted r2 then repeat WPeerReads d2 else [])
+    end.
